@@ -131,7 +131,7 @@ func doReplay(path string) int {
 
 func checkC14(tier string) int {
 	rep := vx.NewReport("C14", tier, "model_checking")
-	rep.Rule = "E3: breadth-first search over histories of two producers (connect+IDENTIFY, REGISTER/UNREGISTER of durable and ephemeral topics and channels, PING, disconnect), admin calls (create/delete topic and channel, tombstone) and virtual-time steps across the tombstone lifetime and the inactivity timeout; after every event /lookup, /topics, /channels and /nodes are compared with a plain registry model; every transition replays its history on a fresh real nsqlookupd; states deduplicated by the canonical model state. distinct = distinct canonical states"
+	rep.Rule = "E3: breadth-first search over histories of two producers - two different nsqds, and one nsqd on two connections at once - (connect+IDENTIFY, REGISTER/UNREGISTER of durable and ephemeral topics and channels, PING, disconnect), admin calls (create/delete topic and channel, tombstone) and virtual-time steps across the tombstone lifetime and the inactivity timeout; after every event /lookup, /topics, /channels and /nodes are compared with a plain registry model; every transition replays its history on a fresh real nsqlookupd; states deduplicated by the canonical model state. distinct = distinct canonical states"
 	rep.Assumptions = []string{"default schedule within an event", "ephemeral keys: removed when their last producer UNREGISTERs (as nsqlookupd documents), not on disconnect"}
 	depth := 6
 	budget := 3 * time.Minute
@@ -139,20 +139,32 @@ func checkC14(tier string) int {
 		depth, budget = 8, 25*time.Minute
 	}
 	cfg := nsqlookupd.LHistCfg{Prods: 2}
-	st := vx.BFS("lkhist", cfg, depth, time.Now().Add(budget), rep, "two producers")
+	st := vx.BFS("lkhist", cfg, depth, time.Now().Add(budget*2/3), rep, "two producers")
 	rep.States, rep.Transitions, rep.Traces, rep.Evaluations = st.States, st.Transitions, st.Transitions, st.Runs
 	if !st.Exhaustive {
 		rep.Exhaustive = false
 	}
 	rep.Extra["depth_completed"] = st.MaxDepth
 	rep.Extra["new_states_per_depth"] = st.PerDepth
+	// the same nsqd on two connections at once (it reconnected while the old connection is
+	// still open): registrations belong to connections
+	cfg2 := nsqlookupd.LHistCfg{Prods: 2, SameAddr: true}
+	st2 := vx.BFS("lkhist", cfg2, depth-1, time.Now().Add(budget/3), rep, "one nsqd on two connections")
+	rep.States += st2.States
+	rep.Transitions += st2.Transitions
+	rep.Traces += st2.Transitions
+	rep.Evaluations += st2.Runs
+	if !st2.Exhaustive {
+		rep.Exhaustive = false
+	}
+	rep.Extra["same_identity_two_connections"] = map[string]interface{}{"depth_completed": st2.MaxDepth, "states": st2.States, "transitions": st2.Transitions, "new_states_per_depth": st2.PerDepth}
 	return rep.Finish()
 }
 
 func checkC15(tier string) int {
 	rep := vx.NewReport("C15", tier, "exploration")
 	rep.Assumptions = []string{"one hostile connection at a time next to one well-behaved registered producer (the per-connection protocol state is not shared between connections)", "default schedule; in-memory connections with exact byte delivery (TCP segmentation is enumerated as chunk boundaries)"}
-	rep.Rule = "E5: magic = all strings of length 4 over {space,V,1,2,NUL}; first input = all strings of length <= 3 over {space,LF,A,0,NUL,0xFF}; every command x 0-3 parameters from {valid, invalid, 65 chars, empty}; IDENTIFY length prefix in {-2^31,-1,0,1,len-1,len,len+1,2^20+1,2^31-1} x body in {valid, each required field missing / zero / wrong type, null, [], {}, truncated at every byte}; commands before IDENTIFY, IDENTIFY twice; every HTTP route x method x argument class. Each against a fresh real nsqlookupd with a bystander producer whose three registrations must stay intact and which must keep being answered. distinct = distinct (input class, answers) outcomes"
+	rep.Rule = "E5: magic = all strings of length 4 over {space,V,1,2,NUL}; first input = all strings of length <= 3 over {space,LF,A,0,NUL,0xFF}; every command x 0-3 parameters from {valid, invalid, 65 chars, empty}; IDENTIFY length prefix in {-2^31,-1,0,1,len-1,len,len+1,2^20+1,2^31-1} x body in {valid, each required field missing / zero / wrong type, null, [], {}, truncated at every byte}; commands before IDENTIFY, IDENTIFY twice; REGISTER/UNREGISTER (once, twice, registered then undone) of every key the bystander holds, durable and ephemeral; every HTTP route x method x argument class. Each against a fresh real nsqlookupd with a bystander producer whose three registrations must stay intact and which must keep being answered. distinct = distinct (input class, answers) outcomes"
 	var specs []nsqlookupd.RobustSpec
 	tcp := func(desc string, data []byte) {
 		specs = append(specs, nsqlookupd.RobustSpec{Kind: "tcp", Data: data, Desc: desc})
@@ -200,6 +212,18 @@ func checkC15(tier string) int {
 			tcp(fmt.Sprintf("before IDENTIFY: %q", line), []byte("  V1"+line))
 			if cmd != "IDENTIFY" {
 				tcp(fmt.Sprintf("after IDENTIFY: %q", line), []byte("  V1"+ident+line))
+			}
+		}
+	}
+	// commands that name the keys of ANOTHER connection (the bystander's): they may add or
+	// remove this connection's own registrations only
+	for _, verb := range []string{"UNREGISTER", "REGISTER"} {
+		for _, key := range []string{"ta ca", "ta", "tb", "tc cc#ephemeral", "tc", "tc zz#ephemeral", "te#ephemeral", "ta cb"} {
+			line := verb + " " + key + "\n"
+			tcp(fmt.Sprintf("another connection's key: %q", line), []byte("  V1"+ident+line))
+			tcp(fmt.Sprintf("another connection's key, twice: %q", line), []byte("  V1"+ident+line+line))
+			if verb == "REGISTER" {
+				tcp(fmt.Sprintf("another connection's key, then undone: %q", line), []byte("  V1"+ident+line+"UNREGISTER "+key+"\n"))
 			}
 		}
 	}
